@@ -116,11 +116,12 @@ class SimWriter:
 
 
 class Sim:
-    def __init__(self, watch_dir, keep=(), chunk=64, crash_at=None, scheduler=None):
+    def __init__(self, watch_dir, keep=(), chunk=64, crash_at=None, scheduler=None, fault="crash"):
         self.watch_dir = str(watch_dir).rstrip("/") + "/"
         self.keep = {str(k) for k in keep}  # paths inside watch_dir that are NOT shimmed (the FASTA)
         self.chunk = chunk
         self.crash_at = crash_at
+        self.fault = fault  # "crash": the process dies at step crash_at; "oserror": that one step fails with ENOSPC and the process goes on
         self.scheduler = scheduler
         self.steps = 0
         self.crashed = False
@@ -149,6 +150,10 @@ class Sim:
             self.steps += 1
             self.log.append((self.steps, what, os.path.basename(str(path))))
             if self.crash_at is not None and self.steps == self.crash_at:
+                if self.fault == "oserror":
+                    import errno
+
+                    raise OSError(errno.ENOSPC, "No space left on device (injected)", str(path))
                 self.crashed = True
                 raise Crash()
 
